@@ -171,7 +171,10 @@ SPECS = {
     ),
     "C16": dict(
         title="incremental-map per-key graph operators equal their definitions on every round",
-        streams=[("perkey", 1500, 60000, 0)],
+        streams=[("perkey", 1500, 50000, 0), ("perkeycut", 500, 15000, 0)],
+        # perkeycut: cutoffs that swallow changes between unequal values; the output may then lag behind the input by
+        # design, so only model and crate are compared on that stream
+        no_oracle_profiles=("perkeycut",),
         proj=dict(keep_ops=("stabilise", "read"), keep_events=("perkeyfn", "inv", "invalidate", "bindrun"), dump=True),
         oracle=O.oracle_perkey,
         profiles=("debug", "release"), dump=True,
